@@ -13,6 +13,17 @@
 // with ArrowBuffer.SetWAL + the buffer's own total_records_buffered counter; later the flushed Parquet
 // files of the node's store), local query execution (the node's real queryregistry history and a
 // per-node marker measurement whose row count identifies the node in the response).
+//
+// Containment: every client request carries a neutral X-C30-Case header (copied by the forwarding path like any
+// other header) so that inbound requests are attributed to the case that caused them; a case is read only after no
+// request is inside any node's handler chain; a forwarding loop (only possible on a broken tree) is cut by the
+// harness middleware after 6 inbound requests, when "more than one hop" is already established.
+//
+// Oracle (judge): incapable-node-processed, forwarded-more-than-once, processed-more-than-once,
+// capable-receiver-did-not-serve, success-without-processing / error-but-processed, not-forwarded-to-capable-peer.
+// Violations are minimised (drop header, drop peers, reset attributes) to a class signature
+// "<oracle>|<kind>|hdr=..|recv=..|peers=[..]". Mutations and candidate fixes are applied with an overlay
+// "replace" (see BUILDERS.md), never by editing /repo.
 package main
 
 import (
@@ -1556,6 +1567,16 @@ func main() {
 	run := ev.Start("C30", "exploration")
 	root := fmt.Sprintf("/dev/shm/verif.c30.%d", os.Getpid())
 	os.RemoveAll(root)
+	// scratch of earlier runs that died through a HARNESS-UNBOUND exit (their process is gone)
+	if old, _ := filepath.Glob("/dev/shm/verif.c30.*"); len(old) > 0 {
+		for _, d := range old {
+			if pid, err := strconv.Atoi(strings.TrimPrefix(filepath.Base(d), "verif.c30.")); err == nil && pid != os.Getpid() {
+				if syscall.Kill(pid, 0) != nil {
+					os.RemoveAll(d)
+				}
+			}
+		}
+	}
 	cleanup := func() { os.RemoveAll(root) }
 	defer cleanup()
 
